@@ -53,6 +53,21 @@ def is_effect(name):
     return bool(name and EFFECT_RE.search(name))
 
 
+def builds_only_refusal(g):
+    """helper g constructs EvalError::ForbiddenInSandbox and no other EvalError variant, and performs no effect call."""
+    variants = set()
+    for b in g.blocks:
+        for s in b["stmts"]:
+            if s["s"] == "assign" and s["rv"]["k"] == "agg" and str(s["rv"].get("adt", "")).endswith("EvalError"):
+                variants.add(s["rv"].get("variant"))
+    if variants != {"ForbiddenInSandbox"}:
+        return False
+    for bi, t in g.calls():
+        if is_effect(M.callee_name(t) or ""):
+            return False
+    return True
+
+
 def run(ctx, res):
     import json, os
     from ..core import VERIF
@@ -104,6 +119,12 @@ def run(ctx, res):
             for bi in tre:
                 for s in f.blocks[bi]["stmts"]:
                     if s["s"] == "assign" and s["rv"]["k"] == "agg" and s["rv"].get("variant") == "ForbiddenInSandbox":
+                        builds = True
+                # or through a local helper that builds the refusal (and nothing else of EvalError)
+                tb = f.blocks[bi]["term"]
+                if tb["t"] == "call":
+                    g = P.funcs.get(M.callee_name(tb) or "")
+                    if g is not None and g.path != p and builds_only_refusal(g):
                         builds = True
             rejoin = ft in tre
             if eff_after:
